@@ -179,6 +179,14 @@ def crafted_instances():
     # a second layout declared from shared elements after assembly (the pinion then `drives` another gear)
     out.append(('fork_after_build', {'elems': gearpair, 'load': ld(c0=F(1, 1000)), 'ctrls': [], 'stops': [], 'fork_after_build': [2],
                                      'ops': sched(5, more=[run2])}))
+    # TWO external torques: a huge one against the commanded direction on the worm wheel (not the last element), a small one on
+    # the last gear; the chain is held (duty cycle 0), then commanded - the motor's net torque never points in the commanded direction
+    for nm, big, small, pw in (('two_loads_hold_pos', 50, F(1, 1000), F(1)), ('two_loads_hold_neg', -50, F(-1, 1000), F(-1))):
+        ctrl2 = [const(0, F(7, 200), 0)] + ([] if pw == 1 else [const(F(7, 200) + F(1, 1000), 1, pw)])
+        out.append((nm, {'elems': sl, 'load': ld(c0=small), 'extra_loads': {2: {'c0': F(big), 'c1': F(0), 'c2': F(0), 'c3': F(0)}},
+                         'ctrls': [ctrl2], 'stops': [], 'ops': sched(10, ctrl=0)}))
+    out.append(('two_loads_free', {'elems': [motor, worm, wheel_free, out_gear], 'load': ld(c0=F(1, 1000)),
+                                   'extra_loads': {2: {'c0': F(1, 100), 'c1': F(1, 1000), 'c2': F(0), 'c3': F(1, 10)}}, 'ctrls': [], 'stops': [], 'ops': sched(8, more=[run2])}))
     # a friction sweep before assembly: the same worm pair declared first self-locking then free, and the other way round
     out.append(('sweep_sl_then_free', {'elems': [motor, worm, wheel_free, out_gear], 'load': ld(c0=5), 'ctrls': [], 'stops': [], 'pre_worm': {2: F(2, 5)}, 'ops': sched(6)}))
     out.append(('sweep_free_then_sl', {'elems': sl, 'load': ld(c0=5), 'ctrls': [], 'stops': [], 'pre_worm': {2: F(1, 50)}, 'ops': sched(6)}))
